@@ -599,21 +599,7 @@ func (cx *Ctx) c13Pairing(r *Report, get func(Entry) *c13Walk) {
 	if nAssign < 3 {
 		r.toolErr("only %d key-field assignments analysed (≥3 confirmed)", nAssign)
 	}
-	for _, e := range cx.entriesOfModule("htlc", "msg") {
-		cw := get(e)
-		for _, x := range cw.evs {
-			if x.ev.Kind != "assign:HTLC.State" || x.ev.Args[0].LooseString() == "0" {
-				continue
-			}
-			ok := false
-			for _, y := range cw.evs {
-				if y.ev.Kind == "store.delete" && hasPrefix(y.ev, "htlc:HTLCExpiredQueueKey=0x02") && coExecuted(x.ev, y.ev) && strings.HasSuffix(qKeyArg(y.ev, 0), ".ExpirationHeight") {
-					ok = true
-				}
-			}
-			r.check(ok, "close-dequeues", entryKey(&e)+"|HTLC.State="+x.ev.Args[0].LooseString(), x.ev.Pos(cx), "closing the contract by message removes its expiry-queue entry (key height = the stored ExpirationHeight) on every successful path", "the contract is closed (State := "+x.ev.Args[0].LooseString()+") without removing its expiry-queue entry")
-		}
-	}
+	cx.closeDequeuesRule(r, get)
 	cx.singleEntryRule(r, get)
 
 }
@@ -690,6 +676,28 @@ func (cx *Ctx) singleEntryRule(r *Report, get func(Entry) *c13Walk) {
 	}
 	if nSingle < 8 {
 		r.toolErr("only %d scheduling sites analysed (≥8 confirmed)", nSingle)
+	}
+}
+
+// closeDequeuesRule (C13, C03/C04's queue clause): closing an HTLC by message
+// removes its expiry-queue entry under (stored ExpirationHeight, id); otherwise
+// the begin blocker refunds the closed contract a second time out of the escrow
+// of the other open contracts.
+func (cx *Ctx) closeDequeuesRule(r *Report, get func(Entry) *c13Walk) {
+	for _, e := range cx.entriesOfModule("htlc", "msg") {
+		cw := get(e)
+		for _, x := range cw.evs {
+			if x.ev.Kind != "assign:HTLC.State" || x.ev.Args[0].LooseString() == "0" {
+				continue
+			}
+			ok := false
+			for _, y := range cw.evs {
+				if y.ev.Kind == "store.delete" && hasPrefix(y.ev, "htlc:HTLCExpiredQueueKey=0x02") && coExecuted(x.ev, y.ev) && strings.HasSuffix(qKeyArg(y.ev, 0), ".ExpirationHeight") {
+					ok = true
+				}
+			}
+			r.check(ok, "close-dequeues", entryKey(&e)+"|HTLC.State="+x.ev.Args[0].LooseString(), x.ev.Pos(cx), "closing the contract by message removes its expiry-queue entry (key height = the stored ExpirationHeight) on every successful path", "the contract is closed (State := "+x.ev.Args[0].LooseString()+") without removing its expiry-queue entry")
+		}
 	}
 }
 
@@ -1246,6 +1254,34 @@ func init() {
 				if !seen[k] {
 					seen[k] = true
 					fmt.Println(k)
+				}
+			}
+		}
+	}
+}
+
+func init() {
+	dumps["c08dbg"] = func(cx *Ctx) {
+		for _, e := range cx.entriesOfModule("service", "abci") {
+			if e.Name != "EndBlock" {
+				continue
+			}
+			ee := e
+			cw := cx.c13WalkEntry(&ee, &Report{})
+			for _, x := range cw.evs {
+				if x.ev.Kind == "store.set" && hasPrefix(x.ev, "service:NewRequestBatchKey=0x10") {
+					cf, s := closureAncestor(x.ev)
+					if cf == nil {
+						continue
+					}
+					envs, complete := pathAssignments(cf.Fn, s, func(v ssa.Value) string { return cw.w.ts.Of(v, cf).LooseString() })
+					fmt.Println("complete", complete, "paths", len(envs))
+					for _, env := range envs {
+						for _, k := range sortedKeys(env) {
+							fmt.Printf("   %v  %s\n", env[k], trunc(k, 200))
+						}
+						fmt.Println("   --")
+					}
 				}
 			}
 		}
